@@ -521,7 +521,7 @@ def extend(o: Outcome, tier: str, pid: str) -> None:
     common.use_repo()
     rep = Report(o)
     info: dict = {}
-    parts = 8 if thorough else 1
+    parts = 10 if thorough else 1     # thorough: one TLC run per family of Gen_Render.FamT
     with cf.ThreadPoolExecutor(max_workers=parts + 3) as ex:
         f_mc = ex.submit(_mc, thorough)
         # (the quick tier starts three JVMs: laws, cases, trace; the vacuity guard runs in the thorough tier)
